@@ -31,11 +31,16 @@ SkSeq == CHOOSE q \in [1..Cardinality(Skeletons) -> Skeletons] : \A a, c \in 1..
 (* spreads the decodes over its workers                                                      *)
 VARIABLES sk, off, kind, filt, dgram
 fvars == <<sk, off, kind, filt, dgram>>
-FInit == /\ \/ /\ sk \in 1..Cardinality(Skeletons) /\ kind \in {"word", "octet", "cut"}
+(* offset of the sample count in the datagram header (after version, address type, 4- or 16-octet agent address, *)
+(* sub-agent id, sequence number, uptime); "cword" = a word mutation of a datagram that ALSO announces 2^32-1    *)
+(* samples: whatever the mutation makes of a sample, the loop over the announced samples has to stop            *)
+CntOff(m) == IF m[8] = 1 THEN 24 ELSE 36
+FInit == /\ \/ /\ sk \in 1..Cardinality(Skeletons) /\ kind \in {"word", "octet", "cut", "cword"}
                /\ off \in 0..(Len(SkSeq[sk]) + 1)
             \/ /\ kind = "pktcut" /\ sk \in 1..Len(CutPackets) /\ off \in 0..Len(CutPackets[sk].o)
          /\ filt \in {{}, {1}}
-         /\ (kind = "word" => off % 4 = 0 /\ off + 4 <= Len(SkSeq[sk]))
+         /\ (kind \in {"word", "cword"} => off % 4 = 0 /\ off + 4 <= Len(SkSeq[sk]))
+         /\ (kind = "cword" => off > CntOff(SkSeq[sk]))
          /\ (kind = "octet" => off < Len(SkSeq[sk]))
          /\ dgram = <<>>
          /\ samples = <<>> /\ agent6 = FALSE            \* (SFlowGen's own variables: unused here)
@@ -43,6 +48,7 @@ Fire == /\ dgram = <<>>
         /\ LET m == IF kind = "pktcut" THEN <<>> ELSE SkSeq[sk] IN
            CASE kind = "pktcut" -> dgram' = CutDgram(sk, off)
              [] kind = "word" -> \E w \in Words(0, Len(m) - off - 4) : dgram' = PutW(m, off, w)
+             [] kind = "cword" -> \E w \in Words(0, Len(m) - off - 4) : dgram' = PutW(PutW(m, off, w), CntOff(m), <<255, 255, 255, 255>>)
              [] kind = "octet" -> \E v \in Bytes8 : dgram' = Put8(m, off, v)
              [] OTHER -> dgram' = IF off <= Len(m) THEN SubSeq(m, 1, off) ELSE m \o <<0, 0, 0, 1, 0, 0, 0, 0>>
         /\ UNCHANGED <<sk, off, kind, filt, samples, agent6>>
